@@ -21,6 +21,7 @@ type simOpts struct {
 	nonclos      bool // allow the "non-closable value" runtime error (open finding about its missing position)
 	closeRun     bool // allow handlers that call functions
 	big          bool // thorough tier: wider size ranges
+	hookErr      bool // allow an error raised by a debug call hook (open finding: golua discards it)
 	closeStorm   bool // directed shape: coroutine closed while suspended in its body or inside a handler
 	hostBoundary bool // main chunk not wrapped in pcall: errors reach the embedding caller (open finding HOST)
 }
@@ -376,7 +377,11 @@ func (g *simGen) stmts() []*stmt {
 		lvl := []int{1, 1, 1, 0, 2, 2}[g.t.Choose(6)]
 		return []*stmt{{k: sError, exps: []*expr{g.errVal()}, level: lvl}}
 	case 13:
-		return []*stmt{{k: sRtErr, n: int64(g.t.Choose(18))}}
+		k := int64(g.t.Choose(19))
+		if k == 18 && !g.o.hookErr {
+			k = 4 // errors raised in call hooks are an open finding (golua drops them): kept to few runs
+		}
+		return []*stmt{{k: sRtErr, n: k}}
 	case 15:
 		// K = 0; [local x <close> = mkc()]; ::top::; K = K + 1; do body end; if K < n then goto top end
 		// (nothing is declared in this block between the label and the goto)
